@@ -1,0 +1,63 @@
+//go:build verif
+
+package tbtc
+
+import (
+	"crypto/ecdsa"
+	"encoding/hex"
+)
+
+// Thin exported wrappers used by the out-of-tree verification harness (property C25).
+// They add no behaviour of their own.
+
+// verifC25Action implements walletAction by delegating to a harness closure.
+type verifC25Action struct {
+	publicKey *ecdsa.PublicKey
+	kind      WalletActionType
+	run       func() error
+}
+
+func (a *verifC25Action) execute() error               { return a.run() }
+func (a *verifC25Action) wallet() wallet               { return wallet{publicKey: a.publicKey} }
+func (a *verifC25Action) actionType() WalletActionType { return a.kind }
+
+// VerifC25Dispatcher wraps the real walletDispatcher.
+type VerifC25Dispatcher struct {
+	wd *walletDispatcher
+}
+
+// VerifC25NewDispatcher calls newWalletDispatcher.
+func VerifC25NewDispatcher() *VerifC25Dispatcher {
+	return &VerifC25Dispatcher{wd: newWalletDispatcher()}
+}
+
+// Dispatch calls walletDispatcher.dispatch with an action whose execute() is run.
+// busy reports whether the returned error is errWalletBusy.
+func (d *VerifC25Dispatcher) Dispatch(
+	publicKey *ecdsa.PublicKey,
+	kind WalletActionType,
+	run func() error,
+) (busy bool, err error) {
+	err = d.wd.dispatch(&verifC25Action{publicKey: publicKey, kind: kind, run: run})
+	return err == errWalletBusy, err
+}
+
+// BusyKeys returns the keys of walletDispatcher.actions, read under actionsMutex.
+func (d *VerifC25Dispatcher) BusyKeys() []string {
+	d.wd.actionsMutex.Lock()
+	defer d.wd.actionsMutex.Unlock()
+	keys := make([]string, 0, len(d.wd.actions))
+	for k := range d.wd.actions {
+		keys = append(keys, k)
+	}
+	return keys
+}
+
+// VerifC25WalletKey computes the key dispatch uses for a wallet.
+func VerifC25WalletKey(publicKey *ecdsa.PublicKey) (string, error) {
+	b, err := marshalPublicKey(publicKey)
+	if err != nil {
+		return "", err
+	}
+	return hex.EncodeToString(b), nil
+}
